@@ -5,7 +5,7 @@ COMMON_NOTE = ("Trusted: Lean 4.33.0 kernel; axioms propext, Classical.choice, Q
                "modelled, and validated against the real app.AnteHandler() on every generated transaction, not verified. ")
 
 SUITES = {
-    "ante": dict(quick_ops=6000, thorough_ops=60000, driver="ante", accept_floor=10),
+    "ante": dict(quick_ops=20000, thorough_ops=100000, driver="ante", accept_floor=10),
 }
 
 PROPS = {
@@ -39,7 +39,7 @@ TEXT = {
               "no_eth_in_cosmos_or_eip712, authz_exec_blocked / authz_grant_blocked (a disabled message inside MsgExec at any depth, a grant "
               "of a disabled type at any position: induction over the tree, with the exact by-value counter of checkDisabledMsgs), "
               "deep_nesting_rejected (>= 6 nested MsgExec anywhere; depth 5 passes: exact), shallow_clean_passes (converse), "
-              "disabled_list_complete, route_monitors. Correspondence: the real app.AnteHandler() on 6000 (quick) generated transactions - "
+              "disabled_list_complete, route_monitors. Correspondence: the real app.AnteHandler() on 20000 (quick) generated transactions - "
               "14 extension-option lists x message mixes x authz trees of depth 0..8 with sibling MsgExecs and a disabled message/grant at "
               "every level - Cosmos transactions signed SIGN_MODE_DIRECT, Ethereum transactions with a signed MsgEthereumTx, bank sends "
               "signed as legacy EIP-712 typed data, so correctly routed well-formed transactions pass the whole chain; the model must "
